@@ -70,6 +70,13 @@ CLAIMED = {
             "position, P_C06 (one error, then silence, no answer for the failing frame) as invariants and as trace predicates",
             "Every fault kind at every position of every script up to the depth bound, plus frames the PT might still send afterwards.",
             "DESIGN.md 8 (C06), 6", TB),
+    "C11": ("model_checking",
+            "TLA+ spec of the upload (WriteFile.tla: path/id table, Slice; ZvtSequence step function with data requests) model-checked "
+            "(MC_Upload, MC_Sequence for WriteFile); real uploads from seeded random directories on disk recorded and validated by TLC "
+            "(TraceUpload: announcement and every data block decoded with the reference codec)",
+            "The exchange is explored exhaustively to the script depth bound; the data path is bound by trace validation over random "
+            "directories, block sizes and request scripts including every refusal class of the property.",
+            "DESIGN.md 8 (C11)", TB),
     "C13": ("model_checking",
             "TLC re-assembles reference-encoded tagged groups (Gen_C13: permutations, duplicates, removals, foreign tags) with the outcome the "
             "property demands; the real decoder runs on every case; TLC judges (TraceCodec P13 flags)",
